@@ -26,7 +26,7 @@ def step (st : DrvState) (line : String) : DrvState × String :=
 partial def loop (h : IO.FS.Stream) (out : IO.FS.Stream) (st : DrvState) : IO Unit := do
   let line ← h.getLine
   if line.isEmpty then return ()
-  let (st', reply) := step st line
+  let (st', reply) := step st line.trimAscii.toString
   out.putStrLn reply
   out.flush
   loop h out st'
